@@ -366,7 +366,42 @@ def memcheck_dispatch(here, prop, tier, seed):
     return summarize("memcheck", prop, res, memcheck_kind, t0)
 
 
+def regress_dispatch(here, prop, tier, seed):
+    """Regression corpus (regress/dispatch/*.bin): instances that exposed a dispatch defect on a tree without the
+    repair, run natively in both build variants. A failing fixture is a violation keyed by its file name."""
+    t0 = time.time()
+    d = os.path.join(HERE, "regress", "dispatch")
+    n = len([f for f in os.listdir(d) if f.endswith(".bin")]) if os.path.isdir(d) else 0
+    if n == 0:
+        return unavailable("regress", "no fixtures in regress/dispatch", t0)
+    violations, cov = [], {}
+    for variant in ("rel", "chk"):
+        exe = os.path.join(HERE, "bin", f"avs-{variant}")
+        if not os.path.exists(exe):
+            continue
+        rc, so, se, dt = sh([exe, "regress", d], cwd=HERE, timeout=1800)
+        m = re.search(r"REGRESS-WORKLOAD fixtures=(\d+) passed=(\d+) crate_debug_assert_trips=(\d+) failed=(\d+)", so)
+        if m:
+            cov[f"regress.{variant}.fixtures"] = int(m.group(1))
+            cov[f"regress.{variant}.passed"] = int(m.group(2))
+            cov[f"regress.{variant}.crate_debug_assert_trips"] = int(m.group(3))
+        for line in so.splitlines():
+            if line.startswith("REGRESS-FAILED "):
+                name, _, why = line[len("REGRESS-FAILED "):].partition(": ")
+                violations.append({"property": prop, "clause": "regression_corpus", "signature": f"{prop}:regression_corpus:{name}",
+                                   "message": f"avs-{variant} regress: fixture {name} fails again: {why}", "case": None, "variant": f"regress-{variant}",
+                                   "detail": {"fixture": os.path.join("regress", "dispatch", name), "why": why, "replay": f"bin/avs-{variant} regress regress/dispatch"}})
+        if rc not in (0, 1) or (rc == 1 and not any(v["variant"] == f"regress-{variant}" for v in violations)):
+            # the process died (abort) or was killed: which fixture is unknown, the corpus as a whole is reported
+            violations.append({"property": prop, "clause": "regression_corpus", "signature": f"{prop}:regression_corpus:process_died",
+                               "message": f"avs-{variant} regress died with {rc}: " + (se.strip().splitlines()[-1][:200] if se.strip() else ""), "case": None,
+                               "variant": f"regress-{variant}", "detail": {"stderr_tail": se[-1500:]}})
+    status = "reports" if violations else "clean"
+    return {"summary": {"engine": "regress", "status": status, "fixtures": n, "wall_s": round(time.time() - t0, 1)}, "coverage": cov, "violations": violations, "inconclusive": []}
+
+
 ENGINES = {
+    "regress-dispatch": regress_dispatch,
     "asan-dispatch": asan_dispatch, "asan-batch": asan_batch, "tsan-batch": tsan_batch,
     "miri-dispatch": miri_dispatch, "miri-batch": miri_batch, "memcheck-dispatch": memcheck_dispatch,
 }
